@@ -300,6 +300,14 @@ fn pred_items(_t: Tier) -> Box<dyn Iterator<Item = PredShape>> {
             }
         }
     }
+    // far beyond the limits (counts that wrap narrow integer types)
+    for big in [65_535usize, 65_536, 65_537, 66_536, 131_072] {
+        v.push(PredShape { nodes: big, edges: 1, predicates: 1, sig: 0, bit: 0 });
+        v.push(PredShape { nodes: 1, edges: big, predicates: 2, sig: 0, bit: 0 });
+    }
+    for p in [255usize, 256, 257, 65_536 + 3] {
+        v.push(PredShape { nodes: 1, edges: 1, predicates: p, sig: 0, bit: 0 });
+    }
     Box::new(v.into_iter())
 }
 
